@@ -32,7 +32,10 @@ reg("C12", "exploration", [P("tex", "all"),
     P("fpcfg", "tex", package="fpcfg", features="cfg_mm", name="tex-cfg-mm")])
 reg("C15", "exploration", [P("solids", "all")])
 reg("C17", "exploration", [P("curve", "spline")])
-reg("C18", "exploration", [P("curve", "angle")])
+reg("C18", "exploration", [P("curve", "angle"),
+    # Angle::wrap again in the float configurations whose rem_euclid is not std's
+    P("fpcfg", "angle", package="fpcfg", features="cfg_libm", name="angle-cfg-libm"),
+    P("fpcfg", "angle", package="fpcfg", features="cfg_mm", name="angle-cfg-mm")])
 reg("C09", "exploration", [P("xform", "algebra"),
     # rotation constructors again in the float configurations whose sqrt/sin/cos are not std's
     P("fpcfg", "xform", package="fpcfg", features="cfg_libm", name="xform-cfg-libm"),
